@@ -808,6 +808,17 @@ theorem shoutysnakecase_is_uppercase_of_snakecase (s : List Nat) : shoutySnake s
 theorem shoutykebabcase_is_uppercase_of_kebabcase (s : List Nat) : shoutyKebab s = (kebab s).map toUpper :=
   (shouty_is_uppercase_of_lower_style 45 (by decide) (words s)).symm
 
+/-- **`uppercamelcase` keeps the letters and digits**: read without regard to case, the result is the text's letters and
+digits in order — nothing but the case changes and the separators go -/
+theorem upperCamel_keeps_letters_and_digits (s : List Nat) :
+    (upperCamel s).map toLower = (s.filter isAlnum).map toLower := by
+  unfold upperCamel
+  rw [joinWith_nil, ← words_flatten s]
+  induction words s with
+  | nil => rfl
+  | cons w ws ih => simp [capWord_lower, ih]
+
+
 /-- non-vacuity and the boundaries the styles are known for: `fooBarBAZQux x2Y, HTTPServer` -/
 example : kebab ("fooBarBAZQux x2Y, HTTPServer".toList.map Char.toNat)
     = "foo-bar-baz-qux-x2-y-http-server".toList.map Char.toNat := by decide
